@@ -106,6 +106,24 @@ func runC13(r *Run) {
 	}
 	r.Floor("R1", "SetPrevBlockTS call sites", nTS, 3)
 
+	r.Rule("R6", "OWN.parameters-have-one-home: the only way to change the coinomics parameters on a running chain is the legacy parameter-change proposal, whose handler writes the x/params subspace; the keeper's GetParams therefore reads the subspace (GetParamSet) and nothing else — a second copy in the module's own store, preferred when present, makes the keeper deaf to governance: minting continues after it was switched off and a changed coefficient is ignored")
+	if gp, ok := P.FnOK("(x/coinomics/keeper.Keeper).GetParams"); ok {
+		nSub, other := 0, ""
+		eachCall(gp, func(ci CallInfo) {
+			switch ci.Name {
+			case "GetParamSet", "GetParamSetIfExists":
+				nSub++
+			case "KVStore", "Get", "Has", "MustUnmarshal", "Unmarshal", "NewStore":
+				if other == "" {
+					other = ci.Name + " at " + P.Pos(instrPos(ci.Instr))
+				}
+			}
+		})
+		r.Check(nSub >= 1 && other == "", "R6", fnID(gp)+"#reads-the-subspace-only", P.Pos(fnPos(gp)), "GetParamSet and no other store read",
+			"the coinomics keeper's GetParams reads "+other+" besides (or instead of) the x/params subspace: a ParameterChangeProposal for subspace coinomics (EnableCoinomics = false, a new RewardCoefficient) is stored in the subspace and never seen by the mint logic")
+	} else {
+		r.Bad("R6", "anchor/coinomics GetParams", "", "not found")
+	}
 	r.Rule("R5", "SHAPE.the-coefficient-is-bounded-where-it-is-accepted: MintAndAllocate multiplies the bonded total by RewardCoefficient *before* it clamps to the cap, in 315-bit decimals that panic on overflow; the only place a coefficient is judged is validateRewardCoefficient (parameter changes and genesis). It therefore compares the asserted value against a bound (a GT/GTE/LT/LTE of the value or its Abs) and returns an error over one edge of that comparison — a validator that only checks the Go type accepts 1e70 %, after which every EndBlock panics with 'Int overflow'")
 	if vf, ok := P.FnOK("x/coinomics/types.validateRewardCoefficient"); ok {
 		bounded := false
